@@ -196,3 +196,49 @@ Qed.
 
 Example optimal_chunks_example : optimal_chunks [3; 3] [2; 2; 0; 0; 0; 1] = [2; 4].
 Proof. reflexivity. Qed.
+
+(* ---------- missing labels (code -1): attached to the preceding group ---------- *)
+Lemma ffill_from_length prev l : length (ffill_from prev l) = length l.
+Proof. revert prev. induction l as [|x r IH]; intros prev; simpl; [reflexivity|]. destruct (x <? 0); simpl; now rewrite IH. Qed.
+
+Lemma ffill_from_keeps l : forall prev k x, nth_error l k = Some x -> 0 <= x -> nth_error (ffill_from prev l) k = Some x.
+Proof.
+  induction l as [|y r IH]; intros prev [|k] x Hk Hx; simpl in *; try discriminate.
+  - inversion Hk; subst. destruct (Z.ltb_spec x 0); [lia| reflexivity].
+  - destruct (y <? 0); simpl; now apply IH.
+Qed.
+
+Lemma fill_missing_length l : length (fill_missing l) = length l.
+Proof. unfold fill_missing. destruct (filter _ l); [reflexivity| apply ffill_from_length]. Qed.
+
+Lemma fill_missing_keeps l i : 0 <= i < zlength l -> 0 <= znth l i -> znth (fill_missing l) i = znth l i.
+Proof.
+  intros Hi Hx. unfold fill_missing. destruct (filter (fun x => 0 <=? x) l) as [|v t]; [reflexivity|].
+  apply znth_nth_error; [lia|]. apply ffill_from_keeps; [now apply nth_error_znth| exact Hx].
+Qed.
+
+(* real groups (non-negative codes) do not straddle the boundaries chosen for labels with missing entries,
+   provided the runs are contiguous once the missing entries are attached to their predecessors *)
+Theorem optimal_chunks_missing_no_straddle chunks labels :
+  chunks <> [] -> Forall (fun c => 0 < c) chunks -> zlength labels = zsum chunks ->
+  (exists x, In x labels /\ 0 <= x) ->
+  contiguous (fill_missing labels) ->
+  forall b, In b (cumsum (optimal_chunks_missing chunks labels)) ->
+  forall i k, 0 <= i -> i < b -> b <= k -> k < zlength labels ->
+    0 <= znth labels i -> 0 <= znth labels k -> znth labels i <> znth labels k.
+Proof.
+  intros Hne Hpos Hlen [x [Hx Hx0]] Hcont b Hb i k Hi Hib Hbk Hk Hli Hlk.
+  unfold optimal_chunks_missing in Hb.
+  destruct (filter (fun x => 0 <=? x) labels) eqn:Ef.
+  - exfalso. assert (In x (filter (fun x => 0 <=? x) labels)) by (apply filter_In; split; [exact Hx| now apply Z.leb_le]).
+    rewrite Ef in H. destruct H.
+  - assert (Hlen' : zlength (fill_missing labels) = zsum chunks).
+    { unfold zlength in *. rewrite fill_missing_length. exact Hlen. }
+    pose proof (optimal_chunks_no_straddle chunks (fill_missing labels) Hne Hpos Hlen' Hcont b Hb) as Hns.
+    assert (Hzl : zlength (fill_missing labels) = zlength labels) by (unfold zlength; now rewrite fill_missing_length).
+    specialize (Hns i k Hi Hib Hbk). rewrite Hzl in Hns. specialize (Hns Hk).
+    rewrite !fill_missing_keeps in Hns by lia. exact Hns.
+Qed.
+
+Example missing_example : optimal_chunks_missing [2; 2; 2] [0; -1; 0; 1; 1; -1] = [3; 3].
+Proof. reflexivity. Qed.
